@@ -27,7 +27,11 @@ def run_stateful(out, prop, tier, rng, work, files, gen, oracle, n_quick, n_thor
         names.append(name)
         nt = nontrivial(sc, res)
         out.add_case(scen.sc_hash(sc), nt, sample=(sample(sc, res) if (sample and len(out.samples) < 4) else None))
-        for v in oracle(sc, res):
+        try:
+            vs = oracle(sc, res)
+        except Exception as ex:       # the trace is so far off that the oracle cannot interpret it
+            vs = [dict(kind='oracle-cannot-interpret-trace', error='%s: %s' % (type(ex).__name__, ex))]
+        for v in vs:
             viol.append((v, sc, name))
     for name, sc in load_corpus(prop):
         do(sc, 'corpus/' + name)
